@@ -19,6 +19,7 @@ MAXW = 96          # widest bit-vector the engine will build (lomond's widest va
 QUERY_TIMEOUT_MS = 20000
 XVAL_STRIDE = 0
 XVAL_SEED = 0
+CONTINUE_SIGS = set()   # violations with these signatures (known findings) do not stop the exploration
 LOGIC = os.environ.get('SX_LOGIC', 'QF_BV')   # harnesses using reals set engine.LOGIC = None
 
 
@@ -684,7 +685,9 @@ class Result(object):
         self.queries += o.queries
         self.prove_queries += o.prove_queries
         self.t_solver += o.t_solver
-        self.violations.extend(o.violations)
+        for v in o.violations:
+            if not any(x[3] == v[3] for x in self.violations):
+                self.violations.append(v)
         self.limits.extend(o.limits)
         for k, v in o.classes.items():
             self.classes[k] = self.classes.get(k, 0) + v
@@ -716,8 +719,9 @@ def explore(run, stack=None, max_paths=10 ** 7, stop_on_violation=True, deadline
         except PathAbort:
             status = 'abort'
         except Violation as v:
-            status = 'violation'
-            res.violations.append((v.what, v.model, c.notes.get('scenario'), v.sig))
+            status = 'violation' if not _sig_known(v.sig) else 'known'
+            if not any(x[3] == v.sig for x in res.violations):
+                res.violations.append((v.what, v.model, c.notes.get('scenario'), v.sig))
         except EngineLimit as e:
             status = 'limit'
             res.limits.append(str(e))
@@ -768,6 +772,13 @@ def explore(run, stack=None, max_paths=10 ** 7, stop_on_violation=True, deadline
     return res
 
 
+def _sig_known(sig):
+    for s in CONTINUE_SIGS:
+        if s == sig or (s.endswith('*') and sig.startswith(s[:-1])):
+            return True
+    return False
+
+
 def _keep_sample(lst, s, cap):
     """keep the `cap` most informative (longest when written out), distinct samples"""
     k = repr(s)
@@ -809,7 +820,7 @@ def explore_parallel(run, nproc=None, budget_s=None, chunk_paths=120):
         return explore(run, deadline=deadline)
     t0 = time.time()
     res, pending = explore(run, max_paths=max(4, nproc // 2), deadline=deadline, leftover=True)
-    if res.violations or res.limits or not pending:
+    if any(not _sig_known(v[3]) for v in res.violations) or res.limits or not pending:
         res.wall = time.time() - t0
         return res
     key = id(run)
@@ -836,7 +847,7 @@ def explore_parallel(run, nproc=None, budget_s=None, chunk_paths=120):
                 r, left = a.get()
                 res.merge(r)
                 pending.extend(left)
-                if r.violations or r.limits:
+                if r.limits or any(not _sig_known(v[3]) for v in r.violations):
                     stop = True
         if stop:
             pool.terminate()
